@@ -3,6 +3,7 @@ package props
 import (
 	"encoding/json"
 	"fmt"
+	"k8s.io/apimachinery/pkg/api/meta"
 	"sort"
 	"strings"
 
@@ -28,15 +29,15 @@ import (
 const NS = "ns"
 
 type SpecP struct {
-	Name      string  `json:"name"`
-	R         int32   `json:"r"`
-	Slots     []int32 `json:"slots,omitempty"`
-	Parallel  bool    `json:"parallel,omitempty"`
-	PolicyOmitted bool `json:"policy_omitted,omitempty"` // podManagementPolicy left empty (only when !Parallel)
-	Strategy  int     `json:"strategy"` // 0 RollingUpdate{partition}, 1 RollingUpdate with nil block, 2 OnDelete, 3 OnDelete with a left-over rollingUpdate{partition} block (the CRD admits it), 4 type omitted + rollingUpdate{partition}, 5 type and block omitted
-	Partition int32   `json:"partition,omitempty"`
-	Limit     int32   `json:"limit"`
-	Claims    int     `json:"claims,omitempty"`
+	Name          string  `json:"name"`
+	R             int32   `json:"r"`
+	Slots         []int32 `json:"slots,omitempty"`
+	Parallel      bool    `json:"parallel,omitempty"`
+	PolicyOmitted bool    `json:"policy_omitted,omitempty"` // podManagementPolicy left empty (only when !Parallel)
+	Strategy      int     `json:"strategy"`                 // 0 RollingUpdate{partition}, 1 RollingUpdate with nil block, 2 OnDelete, 3 OnDelete with a left-over rollingUpdate{partition} block (the CRD admits it), 4 type omitted + rollingUpdate{partition}, 5 type and block omitted
+	Partition     int32   `json:"partition,omitempty"`
+	Limit         int32   `json:"limit"`
+	Claims        int     `json:"claims,omitempty"`
 	// TemplateVolumes: 1 = the pod template itself declares a hostname, a subdomain and volumes: an emptyDir and a persistentVolumeClaim
 	// volume named like the first claim template (legal; the claim template's volume takes its place in every pod)
 	TemplateVolumes int `json:"template_volumes,omitempty"`
@@ -117,10 +118,10 @@ const (
 	OpRestart
 	OpEditLimit
 	OpEditStrategy
-	OpSetRecreate  // the set is deleted and re-created with a new UID (API only; caches lag until refreshed)
-	OpSetRemove    // the set disappears from the API (caches lag)
-	OpAddOrphanPod // somebody creates an unowned pod named S-<a> whose labels match the selector
-	OpOrphanPod    // the owner references of pod a are stripped (orphaning delete of a previous owner, manual edit)
+	OpSetRecreate      // the set is deleted and re-created with a new UID (API only; caches lag until refreshed)
+	OpSetRemove        // the set disappears from the API (caches lag)
+	OpAddOrphanPod     // somebody creates an unowned pod named S-<a> whose labels match the selector
+	OpOrphanPod        // the owner references of pod a are stripped (orphaning delete of a previous owner, manual edit)
 	OpClaimTerminating // claim a gets a deletion timestamp and is held by the pvc-protection finalizer (somebody deleted it while in use)
 	OpEditSlotsRaw     // the user writes a delete-slots value that is not a list of int32: it denotes no slots
 	OpRelabelPod       // pod a is relabelled by hand so that it stops matching the selector (or matches again); its owner reference stays
@@ -156,18 +157,18 @@ type Op struct {
 	B int `json:"b,omitempty"`
 	C int `json:"c,omitempty"`
 	// reconcile only
-	Refresh   int    `json:"refresh,omitempty"`    // 0 full refresh before, 1 none (stale), 2 pods only, 3 set only
-	Perm      uint64 `json:"perm,omitempty"`       // cache list order
+	Refresh int    `json:"refresh,omitempty"` // 0 full refresh before, 1 none (stale), 2 pods only, 3 set only
+	Perm    uint64 `json:"perm,omitempty"`    // cache list order
 	// Fault2 hits the Fault2Off-th call after the first fault, in the same reconcile (0 = none)
-	Fault2    int    `json:"fault2,omitempty"`
-	Fault2Off int    `json:"fault2_off,omitempty"`
-	FaultAt   int    `json:"fault_at,omitempty"`   // 1-based call index the fault hits; 0 = none; -1 = the first status write of the reconcile, -2 = the first pod create, -3 = the first pod delete, -4 = the first ControllerRevision delete, -5 = the first uncached read of the set, -6 = the first pod update (identity / storage repair)
-	Fault     int    `json:"fault,omitempty"`      // fault kind
-	InterAt   int    `json:"inter_at,omitempty"`   // 1-based call index before which an environment op runs; 0 = none
-	InterKind int    `json:"inter_kind,omitempty"` // env op kind (kubelet / refresh / edit …), same encoding as K
-	InterA    int    `json:"inter_a,omitempty"`
-	InterB    int    `json:"inter_b,omitempty"`
-	Worker    bool   `json:"worker,omitempty"` // run through one real worker step (queue bookkeeping observed)
+	Fault2    int  `json:"fault2,omitempty"`
+	Fault2Off int  `json:"fault2_off,omitempty"`
+	FaultAt   int  `json:"fault_at,omitempty"`   // 1-based call index the fault hits; 0 = none; -1 = the first status write of the reconcile, -2 = the first pod create, -3 = the first pod delete, -4 = the first ControllerRevision delete, -5 = the first uncached read of the set, -6 = the first pod update (identity / storage repair)
+	Fault     int  `json:"fault,omitempty"`      // fault kind
+	InterAt   int  `json:"inter_at,omitempty"`   // 1-based call index before which an environment op runs; 0 = none
+	InterKind int  `json:"inter_kind,omitempty"` // env op kind (kubelet / refresh / edit …), same encoding as K
+	InterA    int  `json:"inter_a,omitempty"`
+	InterB    int  `json:"inter_b,omitempty"`
+	Worker    bool `json:"worker,omitempty"` // run through one real worker step (queue bookkeeping observed)
 	// claim faults (C06): 1 claim create -> server error, 2 claim create applied but reported as timeout,
 	// 3 claim cache lookup fails, 4 claim dropped from the cache first (so its create hits AlreadyExists),
 	// 5 the pod create is rejected with 403 Forbidden (quota), 6 with 422 Invalid
@@ -648,6 +649,9 @@ func (s *Sys) makeFault(kind int, a *sim.Action) *sim.Fault {
 		if a.Verb == "create" && a.Obj != nil && a.Name != "" && a.Resource != "statefulsets" {
 			if s.C.Pod(a.Namespace, a.Name) == nil && s.C.PVC(a.Namespace, a.Name) == nil && s.C.Rev(a.Namespace, a.Name) == nil {
 				obj := a.Obj.DeepCopyObject()
+				if m, err := meta.Accessor(obj); err == nil && m.GetNamespace() == "" {
+					m.SetNamespace(a.Namespace) // the namespace travels with the request, not with the object
+				}
 				s.C.StampNew(obj)
 				s.C.Put(obj)
 			}
@@ -1150,7 +1154,9 @@ func genHist(rt *rapid.T) []int {
 }
 
 // genPods draws a constructed pod population over ordinals 0..8 (by construction, no rejection).
-func genPods(rt *rapid.T, histLen int, orphans bool) []PodP { return genPodsSized(rt, histLen, orphans, false) }
+func genPods(rt *rapid.T, histLen int, orphans bool) []PodP {
+	return genPodsSized(rt, histLen, orphans, false)
+}
 
 func genPodsSized(rt *rapid.T, histLen int, orphans, big bool) []PodP {
 	var pods []PodP
